@@ -257,6 +257,20 @@ def s02_6_backsig(ctx, P):
 
 
 def s02_5_onepass(ctx, P):
+    # the streaming verifier finalises the hash of a one-pass-announced signature only after OnePassSignature::matches
+    cands = [p for p in ctx.f.bodies if p.endswith('::fill_inner') and 'SignatureManyReader' in p]
+    fb = ctx.body(cands[0]) if cands else None
+    if fb is not None:
+        from rules.common import arm_context
+        dom = fb.dominators()
+        sinks = [i for i, t in fb.calls(r'SignatureConfig::hash_signature_data$') if any(a == 'SignaturePacket' and vs == ['Ops'] for a, vs in arm_context(fb, i, dom))]
+        gs = [i for i, t in fb.switches() if has_origin(fb.switch_origins(i), r'call:.*OnePassSignature::matches$')]
+        ok, wit = must_pass(fb, sinks, gs)
+        none_push = [i for i, t in fb.calls(r'Vec::<.*>::push$') if has_origin(fb.operand_origins(t['args'][1]), r'agg:.*Option::None$')]
+        ctx.check(P + ':S02-5:ops-hash-needs-matches', 'R-dom',
+                  'for a one-pass-announced signature the final digest is computed only on a branch of OnePassSignature::matches (a mismatch yields hash slot None)',
+                  ok and bool(gs) and bool(sinks) and bool(none_push), function=fb.path, guards=[site(fb, g) for g in gs], sinks=[site(fb, x) for x in sinks],
+                  witness=fmt_path(fb, wit) if wit else None)
     b = ctx.body('packet::one_pass_signature::OnePassSignature::matches')
     if b is None:
         return
